@@ -137,6 +137,46 @@ func c03Perturb(sc *L1Scenario, v L1Op, pt, other, copyOn2 *ProposedTree, leafId
 			}
 		}
 	})
+	add("amount+2*2^64", func(o *L1Op) { o.Amt.Add(o.Amt, new(big.Int).Lsh(big.NewInt(1), 65)) })
+	add("amount+3*2^64", func(o *L1Op) { o.Amt.Add(o.Amt, new(big.Int).Mul(big.NewInt(3), new(big.Int).Lsh(big.NewInt(1), 64))) })
+	add("amount+2^63", func(o *L1Op) { o.Amt.Add(o.Amt, new(big.Int).Lsh(big.NewInt(1), 63)) })
+	add("amount+2^32", func(o *L1Op) { o.Amt.Add(o.Amt, new(big.Int).Lsh(big.NewInt(1), 32)) })
+	// --- values RELATED in state (token pairs were registered by real deposits in the setup) ---
+	escrowStr := func(b uint64) string { return sdk.AccAddress(e.AddrOf(EscrowBase + b)).String() }
+	add("denom = this bridge's L2 denom of the claimed L1 denom (registered pair)", func(o *L1Op) { o.Denom = indepDenom(o.Bridge, o.Denom) })
+	add("denom = the other bridge's L2 denom of the claimed L1 denom", func(o *L1Op) { o.Denom = indepDenom(3-o.Bridge, o.Denom) })
+	add("denom = this bridge's L2 denom of another registered L1 denom", func(o *L1Op) {
+		for _, d := range sc.Denoms {
+			if d != o.Denom {
+				o.Denom = indepDenom(o.Bridge, d)
+				return
+			}
+		}
+	})
+	add("denom = L1 denom of another registered pair", func(o *L1Op) {
+		for k := len(sc.Denoms) - 1; k >= 0; k-- {
+			if sc.Denoms[k] != o.Denom {
+				o.Denom = sc.Denoms[k]
+				return
+			}
+		}
+	})
+	add("denom = L2 denom of the L2 denom", func(o *L1Op) { o.Denom = indepDenom(o.Bridge, indepDenom(o.Bridge, o.Denom)) })
+	add("sender = escrow address of the bridge", func(o *L1Op) { o.From = escrowStr(o.Bridge) })
+	add("recipient = escrow address of the bridge", func(o *L1Op) { o.To = escrowStr(o.Bridge) })
+	add("recipient = escrow address of the other bridge", func(o *L1Op) { o.To = escrowStr(3 - o.Bridge) })
+	add("sender = recipient", func(o *L1Op) { o.From = o.To })
+	add("recipient = proposer", func(o *L1Op) { o.To = e.User(1).Str })
+	if n := len(pt.Tree.Ws); n > 1 {
+		w := pt.Tree.Ws[(leafIdx+1)%n]
+		add("sequence of another leaf of the tree", func(o *L1Op) { o.Seq = w.Seq })
+		add("amount of another leaf of the tree", func(o *L1Op) { o.Amt = new(big.Int).Set(w.Amt) })
+		add("sequence and amount of another leaf", func(o *L1Op) { o.Seq, o.Amt = w.Seq, new(big.Int).Set(w.Amt) })
+		add("recipient and denom of another leaf", func(o *L1Op) { o.To, o.Denom = w.To, w.Denom })
+	}
+	add("sequence of a leaf of the other output", func(o *L1Op) { o.Seq = other.Tree.Ws[0].Seq })
+	add("sequence = output index", func(o *L1Op) { o.Seq = o.Idx })
+	add("output index = sequence", func(o *L1Op) { o.Idx = o.Seq })
 	// --- bridge / output index / output root ---
 	add("other bridge (stores a copy of this output root)", func(o *L1Op) { o.Bridge = copyOn2.Bridge; o.Idx = copyOn2.Idx })
 	add("other bridge, its own output", func(o *L1Op) { o.Bridge = 2; o.Idx = 2 })
@@ -270,8 +310,8 @@ func c03Setup(x *c03Run, nA int, rep *Report) c03Trees {
 	for _, d := range sc.Denoms {
 		x.must(sc.op(L1Op{Kind: "deposit", Sender: e.User(3).Str, Bridge: 1, To: "l2addr", Denom: d, Amt: big.NewInt(30000)}))
 		x.must(sc.op(L1Op{Kind: "deposit", Sender: e.User(4).Str, Bridge: 2, To: "l2addr", Denom: d, Amt: big.NewInt(30000)}))
-		// a plain transfer makes the escrow of bridge 1 hold more than 2^64
-		x.must(sc.op(L1Op{Kind: "send", FromID: 3, ToID: EscrowBase + 1, Denom: d, Amt: new(big.Int).Add(new(big.Int).Lsh(big.NewInt(1), 64), big.NewInt(7))}))
+		// a plain transfer makes the escrow of bridge 1 a whale (more than 2^66): an amount of a + k*2^64 is not refused merely for lack of funds
+		x.must(sc.op(L1Op{Kind: "send", FromID: 3, ToID: EscrowBase + 1, Denom: d, Amt: new(big.Int).Add(new(big.Int).Lsh(big.NewInt(1), 66), big.NewInt(7))}))
 	}
 	leavesOf := func(pt *ProposedTree) [][]byte { return pt.Tree.Levels[0] }
 	A := sc.MakeTree(1, nA)
@@ -692,9 +732,9 @@ func c03HandlerLevel(rep *Report, seed uint64, sizes []int) {
 	}
 }
 
-// 2^64 + 10^6
+// 2^67 + 10^6
 func c03Huge() *big.Int {
-	return new(big.Int).Add(new(big.Int).Lsh(big.NewInt(1), 64), big.NewInt(1000000))
+	return new(big.Int).Add(new(big.Int).Lsh(big.NewInt(1), 67), big.NewInt(1000000))
 }
 
 func init() { register("C03", genC03) }
@@ -703,11 +743,11 @@ func genC03(seed uint64, tier string, outdir string) *Report {
 	rep := NewReport("C03", seed, tier)
 	rep.Rule = "a case is one L1 history (two bridges, five outputs, every leaf of tree A claimed among perturbed claims); distinct by hash of the op list; " +
 		"non-trivial = at least one valid claim was paid and at least one perturbed claim was rejected"
-	nModel, nMon := 16, 10
+	nModel, nMon := 16, 8
 	if tier == "thorough" {
 		nModel, nMon = 160, 200
 	}
-	modelSizes := []int{1, 2, 3, 4, 5, 6, 7, 8, 9, 3, 5, 11}
+	modelSizes := []int{1, 2, 3, 4, 5, 6, 7, 8, 2, 3, 5, 4}
 	var texts []string
 	run := func(k int, nA int, full func(r *Rng) map[int]bool, model bool) {
 		id := k + 1
